@@ -157,6 +157,7 @@ def _class_plan(filters, obj, module_namespace, level, parent_namespace):
         })
     inner = [class_plan(filters, x, module_namespace, level + 1, parent_namespace) for x in obj.inner]
     return {"kind": "class", "qname": obj.qname, "name": obj.name, "level": level, "class_name": class_name,
+            "tag": obj.tag, "local_type": obj.local_type,
             "annotations": list(annotations), "bases": list(bases), "help": help_, "has_meta": has_meta, "meta": meta,
             "post_meta": post_meta, "attrs": attrs, "inner": inner,
             "params": [list(x) for x in filters.class_params(obj)]}
@@ -176,6 +177,7 @@ def _enum_plan(filters, obj, level):
                                                            key=member_name)
         members.append(m)
     return {"kind": "enum", "qname": obj.qname, "name": obj.name, "level": level, "class_name": class_name,
+            "tag": obj.tag, "local_type": obj.local_type,
             "help": help_, "attrs": members, "inner": [], "params": [list(x) for x in filters.class_params(obj)]}
 
 
